@@ -14,6 +14,7 @@ func init() { commands["split"] = cmdSplit }
 type splitReport struct {
 	Cases      int            `json:"cases"`
 	Checks     int            `json:"checks"`
+	Skipped    int            `json:"skipped"`    // cases not executed after repeated timeouts
 	Nontrivial int            `json:"nontrivial"` // cases whose real output has >= 2 chunks
 	PerStrat   map[string]int `json:"per_strategy"`
 	Groups     []*c20.Group   `json:"groups"`
@@ -33,8 +34,12 @@ func cmdSplit(args []string) int {
 		if err := json.Unmarshal(b, &c); err != nil {
 			return err
 		}
-		divs, chunks := c20.EvalSplit(c)
 		rep.Cases++
+		if c20.Tripped() {
+			rep.Skipped++
+			return nil
+		}
+		divs, chunks := c20.EvalSplit(c)
 		rep.Checks += 5 // determinism, no-loss, bound, no empty chunk, exact conformance
 		rep.PerStrat[c.St]++
 		if len(chunks) >= 2 {
